@@ -111,9 +111,13 @@ def make_jobs(tier):
             plan.append(("A", _cfg(ts, True, "refused", 3), ALPHA_FULL, False))
         # the SAME component object started again after an earlier run (one attempt: joined, then main
         # raised / main returned / the session left): the new run is judged like a first one
-        for pre in ("main_raises", "main_returns", "leave"):
+        for pre in ("main_raises", "main_returns", "leave", "stop"):
             for ts in ([T(W, 2)], [T(W, 1), T(R, 0)]):
                 plan.append(("A", dict(_cfg(ts, True, None, 3), prelude=pre), ALPHA_FULL, False))
+        # listeners registered on the component only while its first joined session is alive
+        for ts in ([T(W, 2)], [T(W, 1), T(R, 0)]):
+            for main in (False, True):
+                plan.append(("A", dict(_cfg(ts, main, None, 3), late=True), ALPHA_FULL, False))
         # a 'connectfailure' listener that itself fails: retry decisions are as without it
         for ts in ([T(W, 2)], [T(W, 1), T(R, 0)]):
             for f in ("refused", "never", None):
@@ -158,7 +162,7 @@ def make_jobs(tier):
                          ([T(R, 0), T(W, 1)], True), ([T(W, 0)], True), ([T(W, 0)], False),
                          ([T(R, 1)], True), ([T(R, 1)], False)):
             plan.append(("B", _cfg(ts, main, None, 3), ALPHA_FULL, True))
-        for pre in ("main_raises", "main_returns", "leave", "goodbye"):
+        for pre in ("main_raises", "main_returns", "leave", "goodbye", "stop"):
             for ts in ([T(W, 2)], [T(R, 1)], [T(W, 1), T(R, 0)], [T(R, 0), T(W, 2)]):
                 for f in (None, "refused"):
                     plan.append(("A", dict(_cfg(ts, True, f, 4), prelude=pre), ALPHA_FULL, False))
@@ -217,7 +221,7 @@ def main(ctx):
         ctx.require("stop_" + ph)
     for k in ("exhausted_observed", "success_observed", "fw_tx", "fw_aio",
               "attempts_websocket", "attempts_rawsocket", "fatal_classified", "first_attempt_undelayed",
-              "retry_waits_checked", "wait_at_cap", "jitter_draws", "sessions_with_all_listeners", "failing_listener_reported", "restarted_runs",
+              "retry_waits_checked", "wait_at_cap", "jitter_draws", "sessions_with_all_listeners", "failing_listener_reported", "restarted_runs", "late_listener_sessions",
               "horizon_truncated", "unlimited_retries_configs", "replayed_for_determinism",
               "stop_while_retry_timer", "stop_success_observed", "budget_reset_after_join"):
         ctx.require(k)
@@ -232,7 +236,8 @@ def cfg_id(cfg):
                  for t in cfg["transports"]),
         "main" if cfg["main"] else "nomain", cfg["is_fatal"], cfg["z"]) + (
         "|cf=" + cfg["cf"] if cfg.get("cf") else "") + (
-        "|restarted-after=" + cfg["prelude"] if cfg.get("prelude") else "")
+        "|restarted-after=" + cfg["prelude"] if cfg.get("prelude") else "") + (
+        "|late-listeners" if cfg.get("late") else "")
 
 
 def _tt(cfg, idx):
@@ -376,6 +381,15 @@ def judge(cfg, obs, fw, stats=None):
             continue
         req, opt = ee
         got = events.get(a["session"], []) if a["session"] is not None else []
+        if cfg.get("late"):
+            # listeners registered on the component while session number late_from was joined: from
+            # then on they are invoked - for the rest of that session and for every later one
+            lf = obs.get("late_from")
+            if lf is None or a["session"] is None or a["session"] < lf:
+                continue
+            if a["session"] == lf:
+                req = [e for e in req if e in ("leave", "disconnect")]
+                bump("late_listener_sessions")
         missing = [e for e in req if e not in got]
         if missing:
             out.append(("C14|listener-missing|%s|%s|%s|%s|%s" % (
